@@ -237,7 +237,21 @@ def find_loops(body, mask_body):
         m = LOOP_RE.match(line)
         if m and mask_body[pos + m.start(3)]:
             kw = pos + m.start(3)
-            b = body_open(body, mask_body, kw, n)
+            start = kw
+            if m.group(3) == 'for':
+                # `for PAT in EXPR {`: the pattern may contain braces (struct patterns); skip to the ` in ` keyword
+                i = kw + 3
+                while i < n:
+                    if mask_body[i]:
+                        c = body[i]
+                        if c in '([{':
+                            i = match_close(body, mask_body, i)
+                        elif body[i:i + 2] == 'in' and not (body[i - 1].isalnum() or body[i - 1] == '_') \
+                                and (i + 2 >= n or not (body[i + 2].isalnum() or body[i + 2] == '_')):
+                            start = i + 2
+                            break
+                    i += 1
+            b = body_open(body, mask_body, start, n)
             res.append((kw, b))
         pos = e + 1
     return res
